@@ -73,9 +73,13 @@ Proof. exact send_after_unlock_progress. Qed.
 
 (* the same soundness with goroutines starting only in the ENTRY POINTS of the program (exported
    functions, functions started with `go` or used as values, functions nobody calls); helpers are
-   checked inlined at their call sites — the form the generated obligation repo_race_free uses *)
-Theorem C20_lockset_sound_from : forall G P entries bodies c0 c,
-  well_locked_from G P entries = true -> inline_entries fuel0 P entries = Some bodies ->
+   checked inlined at their call sites — the form the generated obligation repo_race_free uses.
+   [O] is the owner refinement of the lock-set rule, still sound for data-race freedom: a field
+   whose every write is performed by ONE goroutine (which holds the virtual mutex "owner:<entry>"
+   from its start to its end, and holds the guard when writing) may be READ by that goroutine
+   without the guard; everybody else needs the guard.  With O = [] it is the plain rule. *)
+Theorem C20_lockset_sound_from : forall G O P entries bodies c0 c,
+  well_locked_from G O P entries = true -> inline_entries fuel0 P entries = Some bodies ->
   idle c0 -> steps bodies c0 c -> ~ racy G c.
 Proof. exact lockset_sound_from. Qed.
 
@@ -100,8 +104,21 @@ Example C20_nonvacuous_recursion_and_order :
   lock_order_ok [("f", [Acq "m1"; Acq "m2"; Rel "m2"; Rel "m1"]); ("g", [Acq "m2"; Rel "m2"])] = true /\
   lock_order_ok [("f", [Acq "m1"; Acq "m2"; Rel "m2"; Rel "m1"]); ("g", [Acq "m2"; Acq "m1"; Rel "m1"; Rel "m2"])] = false /\
   lock_order_ok [("f", [Acq "m1"; CallCb "cb"; Rel "m1"])] = false /\
-  well_locked_from [("A.f", "A.mu")] [("A.Set", [Acq "A.mu"; Call "A.helper"; Rel "A.mu"]); ("A.helper", [WrE "A.f"])] ["A.Set"] = true /\
-  well_locked_from [("A.f", "A.mu")] [("A.Set", [Acq "A.mu"; Call "A.helper"; Rel "A.mu"]); ("A.helper", [WrE "A.f"])] ["A.Set"; "A.helper"] = false.
+  well_locked_from [("A.f", "A.mu")] [] [("A.Set", [Acq "A.mu"; Call "A.helper"; Rel "A.mu"]); ("A.helper", [WrE "A.f"])] ["A.Set"] = true /\
+  well_locked_from [("A.f", "A.mu")] [] [("A.Set", [Acq "A.mu"; Call "A.helper"; Rel "A.mu"]); ("A.helper", [WrE "A.f"])] ["A.Set"; "A.helper"] = false.
+Proof. vm_compute. repeat split. Qed.
+
+(* the owner rule: the goroutine run (started once) writes f under the lock and reads it without;
+   another goroutine reading without the lock, or a second writer, is refused *)
+Example C20_nonvacuous_owner :
+  let G := [("S.f", "S.mu")] in
+  let O := [("S.f", "owner:S.run")] in
+  let run := ("S.run", [Acq "owner:S.run"; Acq "S.mu"; WrW "S.f"; Rel "S.mu"; Rd "S.f"; Rel "owner:S.run"]) in
+  well_locked_from G O [run; ("S.Get", [Acq "S.mu"; Rd "S.f"; Rel "S.mu"])] ["S.run"; "S.Get"] = true /\
+  well_locked_from G [] [run; ("S.Get", [Acq "S.mu"; Rd "S.f"; Rel "S.mu"])] ["S.run"; "S.Get"] = false /\
+  well_locked_from G O [run; ("S.Get", [Rd "S.f"])] ["S.run"; "S.Get"] = false /\
+  well_locked_from G O [run; ("S.Set", [Acq "S.mu"; WrW "S.f"; Rel "S.mu"])] ["S.run"; "S.Set"] = false /\
+  no_recursive_lock [run] = true /\ lock_order_ok [run] = true.
 Proof. vm_compute. repeat split. Qed.
 
 (* non-vacuity of the obligation: the two defer orders of SetBalancer *)
